@@ -514,7 +514,7 @@ func runC20(r *ev.Run) {
 	r.Set("file_epochs", files)
 	r.Set("file_subranges", ranges)
 	r.Set("refill_subruns_cases", refill)
-	r.Set("rule", "feistel is a bijection of [0,2^b) for every b up to the bound x 24 seeds; shuffleIndex is a permutation of [0,n) for EVERY n up to the bound x 24 seeds plus sizes around powers of two; Batches(n) partitions [0,n) for every n; Chunks partitions every range length at several offsets; files for every line count up to the bound in 6 layouts (short, variable, near-4KiB lines, blank lines in the middle / at the end / first) read as whole epochs through Batches x Chunks x Open x Read and compared as multisets with the non-blank lines, every sub-range [s,e) for small n; one 40 MiB file with the real 32 MiB buffer; the same family with the read buffer overlaid to 64/257/4096 bytes (every alignment of a line against a refill)")
+	r.Set("rule", "feistel is a bijection of [0,2^b) for every b up to the bound x 24 seeds; shuffleIndex is a permutation of [0,n) for EVERY n up to the bound x 24 seeds plus sizes around powers of two; Batches(n) partitions [0,n) for every n; Chunks partitions every range length at several offsets; files for every line count up to the bound in 6 layouts (short, variable, near-4KiB lines, blank lines in the middle / at the end / first) read as whole epochs through Batches x Chunks x Open x Read and compared as multisets with the non-blank lines, every sub-range [s,e) for small n; two windows of one chunker open at once with interleaved reads; one 40 MiB file with the real 32 MiB buffer; the same family with the read buffer overlaid to 64/257/4096 bytes (every alignment of a line against a refill)")
 	r.Assume("epochs beyond the enumerated seeds rest on the epoch only seeding the round keys")
 }
 
